@@ -166,8 +166,9 @@ func c18L2(r *core.R) {
 			unsorted = append(unsorted, e.key)
 		}
 	}
-	c18CheckSorted(r, c, lit, sc, unsorted)
+	res := c18InitFacts(r, c, lit)
+	c18CheckSorted(r, c, lit, sc, unsorted, res)
 
 	// (c) nobody else writes the table
-	c18CheckImmutable(r, c, lit)
+	c18CheckImmutable(r, c, lit, res)
 }
